@@ -59,6 +59,20 @@ theorem extends_empty_symbols_renders_zero :
       (-7) (.named "e") = .ok "-7" := by
   decide
 
+open Wp.ContentFns in
+/-- fixed `target-counter-non-ident-style-crash` (9677ed2): `target-counter("#t", c, "x")` — a string (or
+`symbols()`, or a number) as counter style makes `get_target` reject the function, the declaration is dropped;
+it used to be accepted with the style `None`, on which `render_value` failed its assert while boxes were built.
+General statement: `C15.target_counter_style_named`. -/
+theorem target_counter_non_ident_style_rejected :
+    targetFn "target-counter" [.str "#t", .comma, .ident "c", .comma, .str "x"] = none ∧
+    targetFn "target-counter" [.str "#t", .comma, .ident "c", .comma, .other] = none ∧
+    targetFn "target-counters" [.str "#t", .comma, .ident "c", .comma, .str ".", .comma, .str "x"] = none ∧
+    targetFn "target-counter" [.str "#t", .comma, .ident "c", .comma, .ident "X"] =
+      some (.targetCounter (.str "#t") "c" "x") ∧
+    counterFn "counter" [.ident "c", .comma, .str "x"] = some (.counter "c" (.str "x")) := by
+  decide
+
 /-- The pagination of finding `page-fixpoint-oscillation`, abstractly: the state is "is the label
 currently wide (`iii`)"; a wide label pushes its target to page 4 (4 pages), a narrow one (`iv`)
 lets it come back to page 3 (3 pages); every pass changes the label, so `content_changed` is raised. -/
@@ -153,21 +167,6 @@ theorem ol_start_not_integer :
     applyHint Gen.olHint Gen.uaOl (some [.ident "abc"]) =
       ⟨.other, [("list-item", 0), ("abc", 0)], [], some [("list-item", -1)]⟩ ∧
     Spec.stack (Spec.machine.push (Spec.update Spec.init (applyHint Gen.olHint Gen.uaOl none))) "list-item" = [0] := by
-  decide
-
-open Wp.ContentFns in
-/-- finding `target-counter-non-ident-style-crash`: `target-counter("#t", c, "x")` — `get_target` reads the
-counter style with `get_keyword`, which is Python `None` for a string (or `symbols()`, or a number): the item
-is accepted with the style `None`, and `render_value(value, None)` fails `assert counter or counter_name`
-while boxes are built.  `counter(c, "x")` goes through `list_style_type` and keeps the string style.
-Refutes: "an accepted target-counter() names a counter style" (`Parsed.targetCounter` with `style = none`). -/
-theorem target_counter_non_ident_style :
-    targetFn "target-counter" [.str "#t", .comma, .ident "c", .comma, .str "x"] =
-      some (.targetCounter (.str "#t") "c" none) ∧
-    targetFn "target-counter" [.str "#t", .comma, .ident "c", .comma, .other] =
-      some (.targetCounter (.str "#t") "c" none) ∧
-    counterFn "counter" [.ident "c", .comma, .str "x"] = some (.counter "c" (.str "x")) ∧
-    counterFn "counter" [.ident "c", .comma, .other] = none := by
   decide
 
 end Wp.Witness.C15
